@@ -7,7 +7,7 @@ Import ListNotations.
 (* -I forces max-args 1, and then every invocation carries exactly one input line, in order
    (the lines are the -d '\n' fields of C05_delim_verbatim: blanks inside a line do not split it). *)
 Theorem C20_one_run_per_line : forall c tmpl args,
-  charge_init (limiters0 c) (c_init c) = Some tmpl -> c_n c = Some 1%N -> Forall noninit args -> args <> [] ->
+  charge_init (limiters0 c) (charged c) = Some tmpl -> c_n c = Some 1%N -> Forall noninit args -> args <> [] ->
   match process arg (list limiter) tmpl accf (fatalf c) (c_r c) tmpl [] false args [] with
   | Ran bs => bs = map (fun a => [a]) args
   | TooLarge bs => bs = map (fun a => [a]) (concat bs)
@@ -42,7 +42,7 @@ Proof. exact replace_argv_shape. Qed.
 Print Assumptions C20_nothing_appended.
 
 (* empty input: nothing is run, exit status 0 *)
-Theorem C20_empty_input : forall c tmpl outs, charge_init (limiters0 c) (c_init c) = Some tmpl ->
+Theorem C20_empty_input : forall c tmpl outs, charge_init (limiters0 c) (charged c) = Some tmpl ->
   c_replace c = true -> xargs_run c [] false outs = (0%N, []).
 Proof. exact replace_empty_input. Qed.
 Print Assumptions C20_empty_input.
@@ -86,3 +86,10 @@ Example C20_witness :
   /\ normalize [ON 3%N; OI; OL 2%N] = (None, Some 2%N, false)
   /\ normalize [OL 1%N; OI; ON 1%N] = (Some 1%N, None, true) /\ normalize [OI; ON 2%N; ON 1%N] = (Some 1%N, None, false).
 Proof. vm_compute. repeat split; reflexivity. Qed.
+
+(* What the limits are held against before any line is read: the command and the initial arguments without the replacement
+   string (the lengths once an empty line is put in) - a template that is long only through its occurrences of R is not refused
+   as too large; once a line is in, the command line is held against the limits again (C06_substituted_accepted). *)
+Theorem C20_template_charged_without_R : forall c, c_replace c = true -> charged c = c_subst c 0.
+Proof. intros c H. unfold charged. now rewrite H. Qed.
+Print Assumptions C20_template_charged_without_R.
